@@ -2135,6 +2135,27 @@ func (d *Data) setResolution(uuid dvid.UUID, jsonBytes []byte) error {
 	return datastore.SaveDataByUUID(uuid, d)
 }
 
+// maxLabelAt returns the maximum label of a version: the largest value recorded for the version
+// or any of its ancestors.  MaxLabel holds an entry only for versions in which labels were added
+// (and then only counts those), so a version inherits the maximum of what it descends from.
+func (d *Data) maxLabelAt(v dvid.VersionID) (maxLabel uint64, found bool) {
+	ancestry, err := datastore.GetAncestry(v)
+	if err != nil {
+		ancestry = []dvid.VersionID{v}
+	}
+	d.mlMu.RLock()
+	defer d.mlMu.RUnlock()
+	for _, ancestor := range ancestry {
+		if label, ok := d.MaxLabel[ancestor]; ok {
+			found = true
+			if label > maxLabel {
+				maxLabel = label
+			}
+		}
+	}
+	return
+}
+
 // makes database call for any update
 func (d *Data) updateMaxLabel(v dvid.VersionID, label uint64) (changed bool, err error) {
 	d.mlMu.RLock()
